@@ -12,9 +12,15 @@ class User:
 
 
     def ask_user_about_deleting_file(self, program_name, path):
-        reply = self.input.read_input(
-            "%s: trash %s '%s'? " % (program_name,
-                                     self.describer.describe(path), path))
+        prompt = "%s: trash %s '%s'? " % (program_name,
+                                          self.describer.describe(path), path)
+        try:
+            reply = self.input.read_input(prompt)
+        except UnicodeEncodeError:
+            # the name cannot be encoded for the terminal: show it escaped
+            # instead of dying before the remaining arguments are handled
+            reply = self.input.read_input(
+                prompt.encode('ascii', 'backslashreplace').decode('ascii'))
         return parse_user_reply(reply)
 
 
